@@ -2,6 +2,6 @@
 # runs the thorough tier of the listed properties one after the other (each uses all cores); summary lines only
 for P in "$@"; do
   S=$(date +%s)
-  /venv/bin/python run.py $P --tier thorough --no-evidence --dump-fails thorough_$P.json 2>&1 | grep -E "tier=|^VIOLATION|HARNESS|KNOWN|notes|  layer" | cut -c1-220
+  /venv/bin/python run.py $P --tier thorough --no-evidence --dump-fails /tmp/thorough_$P.json 2>&1 | grep -E "tier=|^VIOLATION|HARNESS|KNOWN|notes|  layer" | cut -c1-220
   echo "== $P exit=${PIPESTATUS[0]} $(( $(date +%s) - S ))s"
 done
